@@ -88,6 +88,7 @@ def execute(trace: dict) -> Outcome:
         nontrivial=run.probes.get("absent_param_checked", 0) > 0,
         abstract=common.abstract_states(run),
         steps=run.steps_done,
+        digest=run.final_digest,
         faults={"absent_grad": run.probes.get("absent_param_checked", 0), "all_absent_step": run.probes.get("all_absent_group_step", 0)},
     )
 
